@@ -2,7 +2,12 @@ pub mod bind;
 pub mod c01;
 pub mod c02;
 pub mod c03;
+pub mod c04;
 pub mod c06;
+pub mod c07;
+pub mod c12;
+pub mod c13;
+pub mod c14;
 pub mod c18;
 pub mod c05;
 pub mod c08;
@@ -24,7 +29,12 @@ pub fn run(id: &str, tier: Tier) -> Option<i32> {
         "C01" => c01::run(tier),
         "C02" => c02::run(tier),
         "C03" => c03::run(tier),
+        "C04" => c04::run(tier),
         "C06" => c06::run(tier),
+        "C07" => c07::run(tier),
+        "C12" => c12::run(tier),
+        "C13" => c13::run(tier),
+        "C14" => c14::run(tier),
         "C18" => c18::run(tier),
         "C05" => c05::run(tier),
         "C08" => c08::run(tier),
